@@ -191,6 +191,11 @@ def structured_scalars(rng, full256=False, extra_random=0):
     s.add(int("a" * 63, 16) >> 1)
     s.add(int("3" * 63, 16))
     s.add(int("e" * 63, 16) >> 1)
+    # a small low limb plus a single higher limb (a scalar that LOOKS like 0, 1, 2 when only some limbs are inspected)
+    for lo in (0, 1, 2, 3):
+        for limb in (1, 2, 3):
+            for j in (1, 2, (1 << 63) - 1 if limb == 3 and not full256 else (1 << 64) - 1, rng.getrandbits(62) | 1):
+                s.add(lo + (j << (64 * limb)))
     s |= set(ladder_coincidences())
     for _ in range(extra_random):
         s.add(rng.getrandbits(top))
@@ -367,6 +372,16 @@ def special_lambdas(g, rng):
     out = [f.neg(f.one), f.small(2)]
     if g == 2:
         out += [(0, 1), (0, rng.randrange(1, Q)), (rng.randrange(2, Q), 0), (0, Q - 1)]
+    # roots of unity of small order (Z^2, Z^3, Z^4, Z^6 or Z^8 equal to 1 without Z being 1)
+    k = 2
+    while pow(k, (Q - 1) // 3, Q) == 1:
+        k += 1
+    om = pow(k, (Q - 1) // 3, Q)
+    for w in (om, om * om % Q, (-om) % Q):
+        out.append(w if g == 1 else (w, 0))
+    if g == 2:
+        z8 = F.f2_sqrt((0, 1))
+        out += [z8, F.f2_mul(z8, (om, 0))]
     return out
 
 
